@@ -222,6 +222,19 @@ namespace fsw
             if (sel == 2) return room;
             return static_cast<size_t>(raw % (room + 1));
         }
+        // an absolute new length (assign(count, ch), resize(count), constructor (count, ch)): nothing is added to size(), so any
+        // value up to npos is a legal argument; under C02 the huge ones must be rejected with length_error
+        size_t cnt_abs(uint64_t raw) const
+        {
+            if (mode == M_C02 && (raw & 31) == 31)
+            {
+                SIM_PROBE("huge_absolute_count");
+                // all beyond std::basic_string's max_size(), so that the reference rejects them too (without trying to allocate)
+                const size_t ch[4] = {npos, npos - 1, npos - 4096, npos / 2 + 2};
+                return ch[(raw >> 5) % 4];
+            }
+            return cnt_add(raw, N);
+        }
         // count that the callee clamps to what is available
         static size_t cnt_clamp(uint64_t raw, size_t avail)
         {
@@ -475,6 +488,7 @@ namespace fsw
             FS_SCOPE("construct", false);
             size_t plen = model[pi].size();
             size_t n = cnt_add(st.a, N);
+            size_t nabs = v == 1 ? cnt_abs(st.a) : n;
             size_t ppos = pos_any(st.b, plen);
             size_t pcnt = cnt_clamp(st.a >> 5, plen - std::min(ppos, plen));
             Str arg = mkstr(st.b, n, v == 7 || v == 10 || v == 13);
@@ -489,7 +503,7 @@ namespace fsw
                 switch (v)
                 {
                 case 0: side.construct(); break;
-                case 1: last_add = n; side.construct(n, ch); break;
+                case 1: last_add = nabs; side.construct(nabs, ch); break;
                 case 2: side.construct(side.at(pi), ppos, pcnt); break;
                 case 3: side.construct(side.at(pi), ppos); break;
                 case 4: side.construct(arg); break;
@@ -565,7 +579,7 @@ namespace fsw
                 auto& t = side.tgt();
                 switch (v)
                 {
-                case 0: last_add = n; t.assign(n, ch); break;
+                case 0: { size_t na = cnt_abs(st.a); last_add = na; t.assign(na, ch); } break;
                 case 1: t.assign(side.at(pi), ppos, pcnt); break;
                 case 2: t.assign(side.at(pi), ppos); break;
                 case 3: last_add = n; t.assign(static_cast<const CT*>(hp.get()), n); break;
@@ -717,7 +731,7 @@ namespace fsw
             if (v == 2 && (!alias_on || model[s].empty())) v = 1;
             FS_SCOPE("resize", v == 2);
             size_t len = model[s].size();
-            size_t n = cnt_add(st.a, N);
+            size_t n = cnt_abs(st.a);
             CT ch = mkch(st.b, LAYOUT != L_STRLEN);
             if (LAYOUT == L_STRLEN) ch = nz(ch);
             if (n > len && LAYOUT == L_STRLEN) SIM_PROBE("strlen_layout_resize_grow");
@@ -1044,7 +1058,7 @@ namespace fsw
         {
             int s = st.actor % 3;
             int pi = partner(s, st.c);
-            FS_VARIANTS("self_pos", "self", "string_pos", "string", "ptr_pos_count", "ptr_pos", "ptr", "ch_pos", "ch");
+            FS_VARIANTS("self_pos", "self", "string_pos", "string", "ptr_pos_count", "ptr_pos", "ptr", "ch_pos", "ch", "end_ptr_pos_count0");
             FS_SCOPE(family, pi == s && v <= 1);
             size_t len = model[s].size();
             size_t pos = pos_find(st.a, len);
@@ -1052,7 +1066,8 @@ namespace fsw
             size_t pc = static_cast<size_t>((st.b >> 40) % (arg.size() + 1));
             if ((st.b >> 38) & 1) pc = arg.size();
             CT ch = arg.empty() ? mkch(st.b, false) : arg[0];
-            auto hp = heap(arg, v != 4);
+            auto hp = heap(arg, v != 4 && v != 9);
+            std::unique_ptr<CT[]> exact(new CT[arg.size() ? arg.size() : 1]);      // an empty range [e, e+0) at the very end of an exact-size block
             if (v == 1 || v == 3 || v == 6 || v == 8) SIM_PROBE("search_with_defaulted_position");
             mutate(s, [&](auto side) -> Ret {
                 const auto& t = side.tgt();
@@ -1068,7 +1083,8 @@ namespace fsw
                 case 5: r = call(t, p, pos); break;
                 case 6: r = call(t, p); break;
                 case 7: r = call(t, ch, pos); break;
-                default: r = call(t, ch); break;
+                case 8: r = call(t, ch); break;
+                default: r = call(t, static_cast<const CT*>(exact.get()) + (arg.size() ? arg.size() : 1), pos, size_t(0)); break;
                 }
                 return side.rv(r);
             }, false);
